@@ -42,6 +42,8 @@ func weightsFor(profile string) map[string]int {
 		if profile == "C10" {
 			base["size_burst"] = 2
 			base["gov"] = 3
+			base["ext_deposit"] = 16 // transfers that arrive from another chain (recipients in the spellings deposits allow)
+			base["poll_all"] = 14
 		}
 		if profile == "C12" {
 			base["gov"] = 3
@@ -53,6 +55,9 @@ func weightsFor(profile string) map[string]int {
 		base["batch_race"] = 7
 		if profile == "C12" || profile == "C04" {
 			base["expiry_edge"] = 4
+		}
+		if profile == "C12" {
+			base["overflow_refund"] = 2
 		}
 		if profile == "C13" || profile == "C04" {
 			base["timeout_inversion"] = 4
@@ -354,7 +359,12 @@ func (g *Gen) Step() {
 		if g.R.Intn(3) == 0 {
 			in.Dest = "u" + strconv.Itoa(g.R.Intn(len(w.Users)))
 		}
-		if t.Chain == "minter" && (in.Chain2 == "ethereum" || in.Chain2 == "bsc") && g.R.Intn(3) == 0 {
+		if t.Chain != "minter" && g.R.Intn(25) == 0 {
+			// the contract accepts a deposit of nothing and numbers its event like any other: the hub has to get past it
+			in.Amt, in.Fee = "0", "0"
+			w.St.Probe("zero-amount-deposit")
+		}
+		if t.Chain == "minter" && (in.Chain2 == "ethereum" || in.Chain2 == "bsc") && g.R.Intn(2) == 0 {
 			in.Op = []string{"bare", "0X", "lower"}[g.R.Intn(3)]
 		}
 		g.emit(in)
@@ -462,6 +472,8 @@ func (g *Gen) Step() {
 		g.emit(Intent{T: "block", Dt: secs, N: 1})
 		g.emit(Intent{T: "block", Dt: 5, N: 1})
 		w.St.Probe("expiry-edge-scenario")
+	case "overflow_refund":
+		g.overflowRefund()
 	case "phantom_orch":
 		// a registration naming a funded stranger as orchestrator is rolled back with its transaction; the stranger
 		// then reports events, and a validator's claims in a failed transaction are followed by its real ones
@@ -807,6 +819,63 @@ func (g *Gen) Step() {
 
 // batchRace drives one chain into the states the batch properties are about: several tokens with several
 // pending batches each, confirmed, then executed in an arbitrary order (newest first, a middle one, …).
+// overflowRefund: two transfers of one 18-decimals token expire in the same EndBlock right after a deposit that
+// fills the denomination's supply so far that re-minting the dearer one would pass 2^256-1 (that refund fails on its
+// own and is retried), while the cheaper one still fits and must be refunded in that very block.
+func (g *Gen) overflowRefund() {
+	w := g.W
+	var t *TokenCfg
+	for i := range w.Cfg.Tokens {
+		if x := &w.Cfg.Tokens[i]; x.Decimals == 18 && x.Chain != "minter" {
+			t = x
+			break
+		}
+	}
+	if t == nil || len(w.Users) < 2 || bigOf(w.Cfg.UserFunds).Cmp(big.NewInt(100000)) < 0 {
+		return
+	}
+	for v := range w.Vals {
+		g.emit(Intent{T: "orch_poll", V: v, Chain: t.Chain, N: 10})
+	}
+	g.emit(Intent{T: "block", Dt: 5, N: 1})
+	if (w.N().Height+1)%2 == 1 {
+		g.emit(Intent{T: "block", Dt: 5, N: 1})
+	}
+	// requested in an even block: the next (odd) block does not batch them
+	g.emit(Intent{T: "user_send", U: 0, Chain: t.Chain, Denom: t.Denom, Amt: "50000", Fee: "9"})
+	g.emit(Intent{T: "user_send", U: 1, Chain: t.Chain, Denom: t.Denom, Amt: "3000", Fee: "2"})
+	g.emit(Intent{T: "block", Dt: 5, N: 1})
+	var small *big.Int
+	n := 0
+	for _, e := range w.ReadState().Pool(t.Chain) {
+		if e.Token.ExternalTokenId != t.ExtID {
+			continue
+		}
+		n++
+		tot := entryTotal(e)
+		if small == nil || tot.Cmp(small) < 0 {
+			small = tot
+		}
+	}
+	if n < 2 || small == nil {
+		return
+	}
+	// after the deposit: supply + small == 2^256-1 exactly, so only the cheaper refund fits
+	max := new(big.Int).Sub(new(big.Int).Lsh(big.NewInt(1), 256), big.NewInt(1))
+	d := new(big.Int).Sub(max, w.ReadState().Supply(t.Denom).BigInt())
+	d.Sub(d, small)
+	if d.Sign() <= 0 || d.BitLen() > 256 {
+		return
+	}
+	w.St.Probe("overflow-refund-scenario")
+	g.emit(Intent{T: "ext_deposit", U: 2 % len(w.Users), Chain: t.Chain, Chain2: "hub", Denom: t.Denom, Amt: d.String(), Fee: "0"})
+	for v := range w.Vals {
+		g.emit(Intent{T: "orch_poll", V: v, Chain: t.Chain, N: 10})
+	}
+	g.emit(Intent{T: "block", Dt: int(w.Cfg.OutgoingTxTimeoutMs/1000) + 2, N: 1})
+	g.emit(Intent{T: "block", Dt: 5, N: 2})
+}
+
 // batchBacklog: more than a hundred Minter batches (they never time out) pile up unsigned by validator 0 while the
 // others sign now and then: the relayer-facing lists must stay complete however long they get.
 func (g *Gen) batchBacklog() {
